@@ -201,3 +201,205 @@ theorem sumN_ite_mul_of_lt {α : Type} [Semiring α] (x : Nat → α) (c N : Nat
   rw [sumN_ite_mul, if_pos hc]
 
 end Toq.Perms
+
+/-! ## Appended for the C01 deepening: composition, bijectivity of the index map, identity-row sums -/
+
+namespace Toq.Perms
+
+/-- a non-empty index range forces every radix to be positive -/
+theorem pos_of_lt_prodN (d : Nat → Nat) : ∀ n i, i < prodN d n → ∀ k, k < n → 0 < d k
+  | 0, _, _, k, hk => by omega
+  | n + 1, i, h, k, hk => by
+    simp only [prodN] at h
+    have hpos : 0 < prodN d n * d n := by omega
+    have h1 : 0 < d n := by
+      rcases Nat.eq_zero_or_pos (d n) with h0 | h0
+      · rw [h0] at hpos; simp at hpos
+      · exact h0
+    have h2 : 0 < prodN d n := by
+      rcases Nat.eq_zero_or_pos (prodN d n) with h0 | h0
+      · rw [h0] at hpos; simp at hpos
+      · exact h0
+    by_cases hkn : k = n
+    · subst hkn; exact h1
+    · exact pos_of_lt_prodN d n 0 h2 k (by omega)
+
+theorem specIndex_congr (n : Nat) (p p' d d' : Nat → Nat) (hlt : ∀ k, k < n → p k < n)
+    (hp : ∀ k, k < n → p k = p' k) (hd : ∀ k, k < n → d k = d' k) (j : Nat) :
+    specIndex n p d j = specIndex n p' d' j := by
+  unfold specIndex
+  apply enc_congr _ _ _ _ _ hd
+  intro k _
+  rw [invPerm_congr n p p' k hp]
+  apply dec_congr
+  intro m hm
+  show d (p m) = d' (p' m)
+  rw [← hp m hm]; exact hd _ (hlt m hm)
+
+theorem invPerm_id (n k : Nat) (hk : k < n) : invPerm n (fun m => m) k = k :=
+  invPerm_eq_of n _ (fun _ _ _ _ h => h) k k hk rfl
+
+theorem specIndex_id (n : Nat) (d : Nat → Nat) (j : Nat) (hj : j < prodN d n) :
+    specIndex n (fun m => m) d j = j := by
+  unfold specIndex
+  rw [enc_congr d d _ (dec d n j) n (fun _ _ => rfl) (fun k hk => by rw [invPerm_id n k hk])]
+  exact enc_dec d n j hj
+
+section comp
+variable (n : Nat) (p q : Nat → Nat) (hpl : ∀ k, k < n → p k < n)
+  (hpi : ∀ a b, a < n → b < n → p a = p b → a = b) (hql : ∀ k, k < n → q k < n)
+  (hqi : ∀ a b, a < n → b < n → q a = q b → a = b)
+include hpl hpi hql hqi
+
+omit hpi hqi in
+theorem permComp_lt (k : Nat) (hk : k < n) : p (q k) < n := hpl _ (hql k hk)
+
+omit hpl in
+theorem permComp_inj (a b : Nat) (ha : a < n) (hb : b < n) (h : p (q a) = p (q b)) : a = b :=
+  hqi a b ha hb (hpi _ _ (hql a ha) (hql b hb) h)
+
+theorem invPerm_comp (k : Nat) (hk : k < n) :
+    invPerm n (fun m => p (q m)) k = invPerm n q (invPerm n p k) := by
+  have h1 := invPerm_lt n p hpl hpi k hk
+  apply invPerm_eq_of n _ (permComp_inj n p q hpi hql hqi) k _ (invPerm_lt n q hql hqi _ h1)
+  show p (q (invPerm n q (invPerm n p k))) = k
+  rw [perm_invPerm n q hql hqi _ h1, perm_invPerm n p hpl hpi k hk]
+
+/-- relabelling by `q` (with the `p`-permuted radices) and then by `p` is relabelling by `p ∘ q` -/
+theorem specIndex_comp (d : Nat → Nat) (hd : ∀ k, k < n → 0 < d k) (j : Nat) :
+    specIndex n p d (specIndex n q (fun m => d (p m)) j) = specIndex n (fun m => p (q m)) d j := by
+  have hd' : ∀ k, k < n → 0 < (fun m => d (p m)) k := fun k hk => hd _ (hpl k hk)
+  show enc d (fun k => dec (fun m => d (p m)) n (specIndex n q (fun m => d (p m)) j)
+    (invPerm n p k)) n = enc d (fun k => dec (fun m => d (p (q m))) n j
+    (invPerm n (fun m => p (q m)) k)) n
+  apply enc_congr _ _ _ _ _ (fun _ _ => rfl)
+  intro k hk
+  rw [dec_specIndex n q (fun m => d (p m)) hql hqi hd' j _ (invPerm_lt n p hpl hpi k hk),
+    invPerm_comp n p q hpl hpi hql hqi k hk]
+
+end comp
+
+section bij
+variable (n : Nat) (p d : Nat → Nat) (hlt : ∀ k, k < n → p k < n)
+  (hinj : ∀ a b, a < n → b < n → p a = p b → a = b) (hd : ∀ k, k < n → 0 < d k)
+include hlt hinj hd
+
+/-- `specIndex n p⁻¹ (d ∘ p)` is a right inverse of `specIndex n p d` on `0..N-1` -/
+theorem specIndex_right_inv (j : Nat) (hj : j < prodN d n) :
+    specIndex n p d (specIndex n (invPerm n p) (fun m => d (p m)) j) = j := by
+  rw [specIndex_comp n p (invPerm n p) hlt hinj (invPerm_lt n p hlt hinj) (invPerm_inj n p hlt hinj)
+    d hd j]
+  rw [specIndex_congr n (fun m => p (invPerm n p m)) (fun m => m) d d
+    (fun k hk => hlt _ (invPerm_lt n p hlt hinj k hk))
+    (fun k hk => perm_invPerm n p hlt hinj k hk) (fun _ _ => rfl)]
+  exact specIndex_id n d j hj
+
+/-- … and a left inverse -/
+theorem specIndex_left_inv (j : Nat) (hj : j < prodN d n) :
+    specIndex n (invPerm n p) (fun m => d (p m)) (specIndex n p d j) = j := by
+  have hql := invPerm_lt n p hlt hinj
+  have hqi := invPerm_inj n p hlt hinj
+  have hd' : ∀ k, k < n → 0 < (fun m => d (p m)) k := fun k hk => hd _ (hlt k hk)
+  have e : specIndex n p d j
+      = specIndex n p (fun m => (fun m => d (p m)) (invPerm n p m)) j :=
+    specIndex_congr n p p _ _ hlt (fun _ _ => rfl)
+      (fun k hk => by show d k = d (p (invPerm n p k)); rw [perm_invPerm n p hlt hinj k hk]) j
+  rw [e, specIndex_comp n (invPerm n p) p hql hqi hlt hinj (fun m => d (p m)) hd' j]
+  rw [specIndex_congr n (fun m => invPerm n p (p m)) (fun m => m) _ (fun m => d (p m))
+    (fun k hk => hql _ (hlt k hk)) (fun k hk => invPerm_perm n p hinj k hk) (fun _ _ => rfl)]
+  apply specIndex_id
+  rw [prodN_reindex n p d hlt hinj]; exact hj
+
+theorem specIndex_inv_lt (j : Nat) : specIndex n (invPerm n p) (fun m => d (p m)) j < prodN d n := by
+  have hd' : ∀ k, k < n → 0 < (fun m => d (p m)) k := fun k hk => hd _ (hlt k hk)
+  have := specIndex_lt n (invPerm n p) (fun m => d (p m)) (invPerm_lt n p hlt hinj)
+    (invPerm_inj n p hlt hinj) hd' j
+  rwa [prodN_reindex n p d hlt hinj] at this
+
+end bij
+
+/-! ### the index map of `permute_systems` is a bijection of `0..N-1` -/
+
+theorem permIndex_false_eq (n : Nat) (p d : Nat → Nat) (hlt : ∀ k, k < n → p k < n)
+    (hinj : ∀ a b, a < n → b < n → p a = p b → a = b) (j : Nat) :
+    permIndex n p d false j = specIndex n p d j :=
+  permuteVec_false_eq _ n p d hlt hinj j
+
+theorem permIndex_true_eq (n : Nat) (p d : Nat → Nat) (hlt : ∀ k, k < n → p k < n)
+    (hinj : ∀ a b, a < n → b < n → p a = p b → a = b) (j : Nat) :
+    permIndex n p d true j = specIndex n (invPerm n p) d j :=
+  permuteVec_true_eq _ n p d hlt hinj j
+
+/-- the model reads the input at `permIndex` (both flags) -/
+theorem permuteVec_eq_permIndex {α : Type} (v : Nat → α) (n : Nat) (p d : Nat → Nat) (inv : Bool)
+    (j : Nat) : permuteVec v n p d inv j = v (permIndex n p d inv j) := rfl
+
+/-- a two-sided inverse of `permIndex n p d inv` on `0..N-1`, `N = prodN d n` -/
+theorem permIndex_bij (n : Nat) (p d : Nat → Nat) (inv : Bool) (hlt : ∀ k, k < n → p k < n)
+    (hinj : ∀ a b, a < n → b < n → p a = p b → a = b) (hd : ∀ k, k < n → 0 < d k) :
+    ∃ τ : Nat → Nat, (∀ j, permIndex n p d inv j < prodN d n) ∧ (∀ j, j < prodN d n → τ j < prodN d n) ∧
+      (∀ j, j < prodN d n → τ (permIndex n p d inv j) = j) ∧
+      (∀ j, j < prodN d n → permIndex n p d inv (τ j) = j) := by
+  cases inv
+  · refine ⟨specIndex n (invPerm n p) (fun m => d (p m)), ?_, ?_, ?_, ?_⟩
+    · intro j; rw [permIndex_false_eq n p d hlt hinj]; exact specIndex_lt n p d hlt hinj hd j
+    · intro j _; exact specIndex_inv_lt n p d hlt hinj hd j
+    · intro j hj; rw [permIndex_false_eq n p d hlt hinj]; exact specIndex_left_inv n p d hlt hinj hd j hj
+    · intro j hj; rw [permIndex_false_eq n p d hlt hinj]; exact specIndex_right_inv n p d hlt hinj hd j hj
+  · -- the inverse flag: the same with `q = p⁻¹`, whose inverse is `p` again on `0..n-1`
+    have hql := invPerm_lt n p hlt hinj
+    have hqi := invPerm_inj n p hlt hinj
+    have hτ : ∀ j, specIndex n (invPerm n (invPerm n p)) (fun m => d (invPerm n p m)) j
+        = specIndex n p (fun m => d (invPerm n p m)) j := fun j =>
+      specIndex_congr n _ p _ _ (invPerm_lt n _ hql hqi) (invPerm_invPerm n p hlt hinj) (fun _ _ => rfl) j
+    refine ⟨specIndex n p (fun m => d (invPerm n p m)), ?_, ?_, ?_, ?_⟩
+    · intro j; rw [permIndex_true_eq n p d hlt hinj]; exact specIndex_lt n _ d hql hqi hd j
+    · intro j _; rw [← hτ]; exact specIndex_inv_lt n _ d hql hqi hd j
+    · intro j hj; rw [permIndex_true_eq n p d hlt hinj, ← hτ]
+      exact specIndex_left_inv n _ d hql hqi hd j hj
+    · intro j hj; rw [permIndex_true_eq n p d hlt hinj, ← hτ]
+      exact specIndex_right_inv n _ d hql hqi hd j hj
+
+theorem permOp_apply {α : Type} [Zero α] [One α] (n : Nat) (p d : Nat → Nat) (inv : Bool) (i k : Nat) :
+    permOp (α := α) n p d inv i k = if permIndex n p d inv i = k then 1 else 0 := by
+  unfold permOp permuteMat; simp only [if_true]
+
+/-! ### sums of products of identity rows -/
+
+theorem sumN_const_zero {α : Type} [AddMonoid α] : ∀ n, sumN n (fun _ => (0 : α)) = 0
+  | 0 => rfl
+  | n + 1 => by simp only [sumN]; rw [sumN_const_zero n, add_zero]
+
+/-- `Σ_k [a = k]·[b = k] = [a = b]` for `a < N` -/
+theorem sumN_ite_ite_row {α : Type} [Semiring α] (a b N : Nat) (ha : a < N) :
+    sumN N (fun k => (if a = k then (1 : α) else 0) * (if b = k then 1 else 0))
+      = if a = b then 1 else 0 := by
+  rw [sumN_ite_mul_of_lt (fun k => if b = k then (1 : α) else 0) a N ha]
+  by_cases h : a = b
+  · rw [if_pos h, if_pos h.symm]
+  · rw [if_neg h, if_neg (fun h' => h h'.symm)]
+
+/-- `Σ_k [σ k = i]·[σ k = j] = [i = j]` for a bijection `σ` of `0..N-1` with inverse `τ` -/
+theorem sumN_ite_ite_col {α : Type} [Semiring α] (σ τ : Nat → Nat) (N i j : Nat) (hi : i < N)
+    (hτ : τ i < N) (h1 : ∀ k, k < N → τ (σ k) = k) (h2 : σ (τ i) = i) :
+    sumN N (fun k => (if σ k = i then (1 : α) else 0) * (if σ k = j then 1 else 0))
+      = if i = j then 1 else 0 := by
+  have _ := hi
+  by_cases hij : i = j
+  · subst hij
+    rw [if_pos rfl]
+    rw [sumN_congr _ (fun k => (if τ i = k then (1 : α) else 0) * 1) N (fun k hk => by
+      by_cases h : σ k = i
+      · have : τ i = k := by rw [← h, h1 k hk]
+        rw [if_pos h, if_pos this]
+      · have : ¬ τ i = k := fun h' => h (by rw [← h', h2])
+        rw [if_neg h, if_neg this, zero_mul, zero_mul])]
+    rw [sumN_ite_mul_of_lt (fun _ => (1 : α)) (τ i) N hτ]
+  · rw [if_neg hij]
+    rw [sumN_congr _ (fun _ => (0 : α)) N (fun k _ => by
+      by_cases h : σ k = i
+      · rw [if_pos h, if_neg (fun h' => hij (h.symm.trans h')), mul_zero]
+      · rw [if_neg h, zero_mul])]
+    exact sumN_const_zero N
+
+end Toq.Perms
